@@ -76,6 +76,17 @@ func scenarios() []scen {
 	for _, procs := range []int{1, 2} {
 		out = append(out, scen{Name: fmt.Sprintf("bound-from-binding/procs%d", procs), Q: sel(ba), Data: bg, Procs: procs, Bag: true})
 	}
+	// a join whose rows share TWO bindings that only the compatibility check enforces: the anchor and a TYPE alias
+	// (the check walks a map of bindings: every order of that walk must give the same answer)
+	ta, tb := model.N("/t", "a"), model.N("/t", "b")
+	dj := []*triple.Triple{T(a, bqlm.PT1, model.ON(b)), T(ta, bqlm.PT1, model.ON(c)), T(b, bqlm.QT2, model.ON(a)), T(tb, model.PT("q", model.T1), model.ON(c)), T(c, model.PT("q", model.T1), model.ON(a))}
+	anchorJoin := []bqlm.Clause{
+		{S: bqlm.Term{Kind: bqlm.Bind, Name: "?a", TypeAlias: "?ty"}, P: bqlm.Term{Kind: bqlm.AnchorBind, ID: "p", Name: "?t"}, O: bt("?x")},
+		{S: bqlm.Term{Kind: bqlm.Bind, Name: "?b", TypeAlias: "?ty"}, P: bqlm.Term{Kind: bqlm.AnchorBind, ID: "q", Name: "?t"}, O: bt("?y")},
+	}
+	for _, procs := range []int{1, 2} {
+		out = append(out, scen{Name: fmt.Sprintf("join-on-anchor-and-type/procs%d", procs), Q: sel(anchorJoin), Data: dj, Procs: procs})
+	}
 	one := []bqlm.Clause{{S: bt("?s"), P: bt("?p"), O: bt("?o")}}
 	out = append(out, scen{Name: "single-clause-order", Q: ord(one, bqlm.Key{Binding: "?s"}, bqlm.Key{Binding: "?p"}, bqlm.Key{Binding: "?o"}), Data: d2, Procs: 2, Ordered: true})
 	return out
